@@ -28,6 +28,8 @@ def gen_histories(chk, mdl, n):
             uris.valid_texts(mdl, uris.small_texts(2, alphabet=uris.SEG_FULL, auths=(None, "//H%41", "//u@[::1]:8", "//1.2.3.4", "//[vF.x]", "//%31.2.3.4", "//[::A:1.2.3.4]"), schemes=(None, "S"), queries=(None, "%7e"), frags=(None, "F"))) + \
             uris.valid_texts(mdl, uris.small_texts(3, alphabet=["", "..", "a", "b:c"], auths=(None, "//", "//h"), schemes=(None, "s"), queries=(None,))) + \
             uris.valid_texts(mdl, uris.small_texts(3, alphabet=[".", "..", ":b", ":", "x"], auths=(None,), schemes=(None, "s"), queries=(None,)))
+    deg = uris.valid_texts(mdl, uris.degenerate_texts() + uris.long_ip6_texts())
+    texts += deg
     abs_texts = [t for t in texts if t[:2].lower() == "s:"]
     out = []
     # fixed part: every small reference with dot segments goes through normalize -> resolve -> normalize -> create reference -> make owner
@@ -52,7 +54,7 @@ def gen_histories(chk, mdl, n):
                 i, j = r.sample(sorted(live), 2); dst = r.choice([s for s in range(8) if s not in (i, j)])
                 steps.append(('r', dst, i, j, r.randrange(2))); live.add(dst)
             elif k < 0.85 and live:
-                steps.append(('n', r.choice(sorted(live)), r.choice([63, 63, 8, 8, 1, 2, 4, 16, 32, r.randrange(64), 4294967295])))
+                steps.append(('n', r.choice(sorted(live)), r.choice([63, 63, 8, 8, 1, 2, 4, 16, 32, r.randrange(64), 4294967295, 64, 2147483648, 4294967232])))
             elif k < 0.93 and live: steps.append(('o', r.choice(sorted(live))))
             elif k < 0.97 and len(live) >= 2:
                 i, j = r.sample(sorted(live), 2); steps.append(('e', i, j))
